@@ -53,7 +53,7 @@ reported: two break no listed property (C12-9 and C12-18, within C04's stated to
 reaching an operator) that the `fix:` commits of §7 have closed, so that on the current tree the
 change no longer breaks its property and its own demonstration passes (`outside_claim` in their
 `meta.json` names the repair). The unchanged tree stays silent.
-The whole table was last re-run after round 9; the legs of rounds 10 and 11 were added to the checks without changing an existing leg, alphabet or oracle (§8.4), the 64 new seeds and the three re-based patches were run one by one (`tools/seed_run.sh`), and the eighteen older C09 seeds were re-run because the explorer now gives a scenario up after three stalled executions.
+The whole table was last re-run after round 9; the legs of rounds 10 and 11 were added to the checks without changing an existing leg, alphabet or oracle (§8.4), the 64 new seeds and the three re-based patches were run one by one (`tools/seed_run.sh`), and - because the explorer now gives a scenario up after three stalled executions - so were C09-13 (the only older seed that uses a primitive the scheduler does not model, a WaitGroup) and the five seeds of other properties that only C09 detects: all still detected.
 `tools/seed_all.sh` re-runs the whole table in a scratch mirror (`/tmp/ev`, so /repo and
 /verif/evidence are not touched); patches that touch lines changed by later `fix:` commits
 were re-based (the delivered patch is kept as `patch.orig.diff`).
